@@ -184,4 +184,14 @@ example :
     S.ctl 1 = .fin .killed ∧ inBodyM (S.ctl 2) = true ∧ (S.comp 0).files = [(.sh, 2)] ∧
     (S.comp 1).files = [(.ex, 0)] := by decide
 
+/-- D12i: X (stacks [0,1], exclusive) has left its body and its `giveLocks` has released stack 0; SIGTERM arrives as it
+is about to start on stack 1: the handler's pass releases stack 1 (it is still on the list), X dies, nothing is left —
+Y then takes both stacks. -/
+example :
+    let S := mrunE (minit (fun _ => .ex) (fun _ => none) (fun _ => 0) (fun _ => [0, 1]) (fun _ => true))
+      ([.call 0, .call 0, .call 0, .call 0, .call 0, .call 0] ++ [.call 0, .call 0, .call 0, .call 0, .call 0] ++
+       [.intr 0] ++ [.call 0, .call 0, .call 0, .call 0] ++ [.call 1, .call 1, .call 1, .call 1, .call 1, .call 1])
+    S.ctl 0 = .fin .killed ∧ inBodyM (S.ctl 1) = true ∧ (S.comp 0).files = [(.ex, 1)] ∧
+    (S.comp 1).files = [(.ex, 1)] := by decide
+
 end EupsModel.C09
